@@ -407,7 +407,9 @@ func (b *Builder) structHash(t *types.Struct) (ret []byte, pkg string) {
 		}
 		name := f.Name()
 		if f.Embedded() {
-			name = "-"
+			// An embedded field keeps its name (struct{ A } with type A = T and
+			// struct{ T } are different types); the dash marks the embedding.
+			name = "-" + name
 		}
 		ft, _ := b.TypeName(f.Type())
 		fmt.Fprintln(h, name, ft)
